@@ -107,8 +107,10 @@ SetFarthest(s, k) ==
          {Res([s EXCEPT !.tf = keep(s.tf), !.tfx = keep(s.tfx), !.og = keep(s.og), !.ogx = keep(s.ogx),
                         !.far = k], {}, {})}
 
-ExpireFetch(s, e) == {Res([s EXCEPT !.ogx = s.ogx \cup {e}], {}, {})}
-ExpirePending(s, e) == {Res([s EXCEPT !.tfx = s.tfx \cup {e}], {}, {})}
+\* only an entry that exists can run out of time (a behaviour replayed into an implementation that took another
+\* admissible path may name an entry the implementation does not have: nothing happens then)
+ExpireFetch(s, e) == {Res([s EXCEPT !.ogx = IF e \in s.og THEN s.ogx \cup {e} ELSE s.ogx], {}, {})}
+ExpirePending(s, e) == {Res([s EXCEPT !.tfx = IF e \in s.tf THEN s.tfx \cup {e} ELSE s.tfx], {}, {})}
 
 (***************************************************************************)
 (* A step: [ev, s (state before), r (result: st, issued, failed), + args]  *)
